@@ -143,6 +143,7 @@ def build_kwargs(problem, cfg, trace, hooks=None, checkpoint=None, x0=None):
     kw = {}
 
     hostile = bool(cfg.get("hostile_user"))
+    gbuf = {}
 
     def fun(x, *a):
         i = trace.nf
@@ -157,14 +158,18 @@ def build_kwargs(problem, cfg, trace, hooks=None, checkpoint=None, x0=None):
         if sc != 1.0:
             v = v * sc
         trace.evals.append(("f", xr, v))
+        if cfg.get("reuse_value_buffer") and not np.iscomplexobj(xr):
+            # a user whose objective writes its value into one preallocated one-element array and returns that array
+            if "vbuf" not in gbuf:
+                gbuf["vbuf"] = np.empty(1)
+            gbuf["vbuf"][0] = v
+            return gbuf["vbuf"]
         if hostile and not np.iscomplexobj(x):
             try:
                 x[:] = np.nan  # the user overwrites the array it was handed
             except (ValueError, TypeError):
                 pass
         return v
-
-    gbuf = {}
 
     def jac(x, *a):
         i = trace.ng
